@@ -60,23 +60,35 @@ T("inverse_dihedral_onesite", f"""forall (cell : option RV) (mass : nat -> R) (p
 T("inverse_gyration", f"""forall (cell : option RV) (mass : nat -> R) (pos : RF) (ids : list nat) (fc : R),
   NoDup ids -> gyr_value Rops pos ids <> 0 ->
   {FT} (CGyration ids) ({AP} (CGyration ids) fc) = fc""", "exact inv_gyration.")
-T("inverse_rmsd", f"""forall (cell : option RV) (mass : nat -> R) (pos : RF) (ids : list nat) (refs : list RV) (extra : list (list RV)) (center : option RV) (fc : R),
+T("inverse_rmsd", f"""forall (cell : option RV) (mass : nat -> R) (pos : RF) (ids : list nat) (refs : list RV) (extra : list (list RV)) (fc : R),
   NoDup ids -> (forall r, In r (refs :: extra) -> length r = length ids) ->
-  rmsd_value Rops pos ids (rmsd_best Rops pos ids refs extra center) center <> 0 ->
-  (forall rc, center = Some rc -> forall r, In r (refs :: extra) -> vsum Rops r = vscale Rops (ofnat Rops (length ids)) rc) ->
-  {FT} (CRmsd ids refs extra center) ({AP} (CRmsd ids refs extra center) fc) = fc""", "exact inv_rmsd.",
-  "rmsd without rotation, with any number of permuted copies of the reference (atomPermutation): whichever copy is the closest, gradients and\n   inverse gradients use the same one; when the group is centred it must be centred on the centre of the reference positions")
+  rmsd_value Rops pos ids (rmsd_best Rops pos ids refs extra None) None <> 0 ->
+  {FT} (CRmsd ids refs extra None) ({AP} (CRmsd ids refs extra None) fc) = fc""", "exact inv_rmsd.",
+  "rmsd without rotation and without centring, with any number of permuted copies of the reference (atomPermutation): whichever copy is the\\n   closest, gradients and inverse gradients use the same one")
+T("inverse_rmsd_centered", f"""forall (cell : option RV) (mass : nat -> R) (pos : RF) (ids : list nat) (refs : list RV) (extra : list (list RV)) (rc : RV) (fc : R),
+  NoDup ids -> (forall r, In r (refs :: extra) -> length r = length ids) ->
+  (let g := rmsd_grads Rops pos ids (rmsd_best Rops pos ids refs extra (Some rc)) (Some rc) in
+   norm2_sum Rops (vadd_list Rops g (fit_grads Rops (length ids) (Some rc) g)) <> 0) ->
+  {FT} (CRmsd ids refs extra (Some rc)) ({AP} (CRmsd ids refs extra (Some rc)) fc) = fc""", "exact inv_rmsd_centered.",
+  "centred rmsd (fit gradients on; code with fix-C07-3): the total force is projected on the complete gradient grad + fit, normalised by its\\n   squared norm: the inverse holds wherever the group is centred (the earlier condition on the centre of its own references is gone)")
 T("inverse_eigenvector", f"""forall (cell : option RV) (mass : nat -> R) (pos : RF) (ids : list nat) (refs evec : list RV) (center : option RV) (fc : R),
   NoDup ids -> length evec = length ids -> norm2_sum Rops (eig_vec Rops evec) <> 0 ->
   {FT} (CEigenvector ids refs evec center) ({AP} (CEigenvector ids refs evec center) fc) = fc""", "exact inv_eigenvector.",
   "eigenvector without rotation (any centring): the centred vector must not be null")
 
-T("inverse_rmsd_rotated", f"""forall (cell : option RV) (mass : nat -> R) (pos : RF) (ids : list nat) (refs : list RV) (extra : list (list RV)) (rotf : RF -> RQ) (jdf : RF -> R) (fc : R),
-  NoDup ids -> (forall r, In r (refs :: extra) -> length r = length ids) ->
+T("inverse_rmsd_rotated", f"""forall (cell : option RV) (mass : nat -> R) (pos : RF) (ids : list nat) (refs : list RV) (rotf : RF -> RQ) (jdf : RF -> R) (fitf : RF -> list RV) (fc : R),
+  NoDup ids -> length refs = length ids -> qnorm2 Rops (rotf pos) = 1 ->
+  rmsdrot_value Rops pos ids refs (rotmat Rops (rotf pos)) refs <> 0 ->
+  {FT} (CRmsdRot ids refs [] rotf jdf fitf) ({AP} (CRmsdRot ids refs [] rotf jdf fitf) fc) = fc""", "exact inv_rmsd_rot.",
+  "rotated frames (the default fit of rmsd / eigenvector): the optimal quaternion of the step is an input of the model, the matrices are\\n   quaternion::rotation_matrix of it and of its conjugate; for every unit quaternion, rotating the forces into the frame of the gradients\\n   (read_total_forces) inverts rotating the applied forces back.  Standard rmsd (no atomPermutation): no fit gradients")
+T("inverse_rmsd_rotated_permuted", f"""forall (cell : option RV) (mass : nat -> R) (pos : RF) (ids : list nat) (refs : list RV) (e : list RV) (es : list (list RV)) (rotf : RF -> RQ) (jdf : RF -> R) (fitf : RF -> list RV) (fc : R),
+  NoDup ids -> (forall r, In r (refs :: e :: es) -> length r = length ids) -> length (fitf pos) = length ids ->
   qnorm2 Rops (rotf pos) = 1 ->
-  rmsdrot_value Rops pos ids refs (rotmat Rops (rotf pos)) (rmsdrot_best Rops pos ids refs extra (rotmat Rops (rotf pos))) <> 0 ->
-  {FT} (CRmsdRot ids refs extra rotf jdf) ({AP} (CRmsdRot ids refs extra rotf jdf) fc) = fc""", "exact inv_rmsd_rot.",
-  "rotated frames (the default fit of rmsd / eigenvector): the rotation matrix used at the step is an input of the model; whenever it is\n   orthogonal (R R^T = 1), rotating the forces into the frame of the gradients (read_total_forces) inverts rotating the applied forces back;\n   with atomPermutation copies as above")
+  (let R := rotmat Rops (rotf pos) in
+   let g := rmsdrot_grads Rops pos ids refs R (rmsdrot_best Rops pos ids refs (e :: es) R) in
+   norm2_sum Rops (vadd_list Rops g (map (mvmul Rops R) (fitf pos))) <> 0) ->
+  {FT} (CRmsdRot ids refs (e :: es) rotf jdf fitf) ({AP} (CRmsdRot ids refs (e :: es) rotf jdf fitf) fc) = fc""", "exact inv_rmsd_rot_perm.",
+  "symmetry-adapted rotated rmsd (atomPermutation, default fit): the applied forces contain fc * fit_gradients (derivatives of the optimal rotation,\\n   an input of the model); with fix-C07-3 the total force is projected on the complete gradient, and that is the inverse for EVERY value of the input")
 T("rotation_matrices", f"""forall q : RQ, qnorm2 Rops q = 1 ->
   (forall v : RV, mvmul Rops (rotmat Rops q) (mtvmul Rops (rotmat Rops q) v) = v) /\\
   (forall v : RV, mvmul Rops (rotmat Rops (qconj Rops q)) v = mtvmul Rops (rotmat Rops q) v)""",
@@ -105,7 +117,7 @@ T("pm1_combination", f"""forall (cell : option RV) (mass : nat -> R) (cv : colva
   "exact pm1_combination.", "+-1 combinations of n components: the inverse holds and the Jacobian force is kT * sum (+-jd_i) / n")
 
 LAST = "last_ft (snd (eng_run Rops PI cell mass cv {inc} s ({hist})))"
-OWN = f"applied_force Rops cv (e_fb i1) (cv_fj {M} (e_pos i1) cv)"
+OWN = f"applied_force Rops cv (e_apply i1) (e_fb i1) (cv_fj {M} (e_pos i1) cv)"
 INVOK = f"""Forall (fun p => forall fc, cvc_ft {M} (e_pos {{i}}) (fst p) (cvc_apply {M} (e_pos {{i}}) (fst p) fc) = fc) (cv_comps cv) ->
   ForallOrdPairs (fun p q => forall a, In a (cvc_atoms (fst p)) -> ~ In a (cvc_atoms (fst q))) (cv_comps cv) ->
   cv_sqnorm Rops cv <> 0 ->"""
@@ -113,35 +125,41 @@ def invok(i): return INVOK.replace("{i}", i)
 okpf = "assert (Hok : cv_inv_ok cell mass (e_pos %s) cv) by (repeat split; assumption)."
 
 T("inverse_lagged", f"""forall (cell : option RV) (mass : nat -> R) (cv : colvar) (pre : list einput) (s : estate) (i1 i2 : einput),
-  cv_samestep cv = false ->
+  cv_samestep cv = false -> e_apply i1 = true ->
   {invok('i1')}
   (forall a, In a (cv_atoms cv) -> e_force i1 a = vzero Rops) ->
   {LAST.format(inc='true', hist='pre ++ [i1; i2]')} =
-    {OWN} + (if adds_fj cv then cv_fj {M} (e_pos i1) cv else 0)
+    {OWN} + (if adds_fj cv (cv_hide cv) then cv_fj {M} (e_pos i1) cv else 0)
     - (if cv_subtract cv then {OWN} else 0)""",
-  f"intros cell mass cv pre s i1 i2 H Hi Hd Hs Hz. {okpf % 'i1'} exact (inverse_lagged cell mass cv pre s i1 i2 H Hok Hz).",
+  f"intros cell mass cv pre s i1 i2 H Ha Hi Hd Hs Hz. {okpf % 'i1'} exact (inverse_lagged cell mass cv pre s i1 i2 H Ha Hok Hz).",
   "lagged convention, every history: if at step t-1 the variable's atoms experienced exactly the forces Colvars applied\n   (the engine's own force vanishes on them), the report of step t is the applied variable force f(t-1), plus kT*jd(t-1)\n   unless hidden, minus f(t-1) with subtractAppliedForce")
 T("inverse_lagged_jacobian", f"""forall (cell : option RV) (mass : nat -> R) (cv : colvar) (pre : list einput) (s : estate) (i1 i2 : einput),
-  cv_samestep cv = false -> cv_hide cv = false -> cv_subtract cv = false ->
+  cv_samestep cv = false -> e_apply i1 = true -> cv_hide cv = false -> cv_subtract cv = false ->
   {invok('i1')}
   (forall a, In a (cv_atoms cv) -> e_force i1 a = vzero Rops) ->
   {LAST.format(inc='true', hist='pre ++ [i1; i2]')} = e_fb i1 + cv_fj {M} (e_pos i1) cv""",
-  f"intros cell mass cv pre s i1 i2 H Hh Hsb Hi Hd Hs Hz. {okpf % 'i1'} exact (inverse_lagged_jacobian cell mass cv pre s i1 i2 H Hh Hsb Hok Hz).",
+  f"intros cell mass cv pre s i1 i2 H Ha Hh Hsb Hi Hd Hs Hz. {okpf % 'i1'} exact (inverse_lagged_jacobian cell mass cv pre s i1 i2 H Ha Hh Hsb Hok Hz).",
   "f plus the temperature-weighted Jacobian term")
 T("inverse_lagged_hidden", f"""forall (cell : option RV) (mass : nat -> R) (cv : colvar) (pre : list einput) (s : estate) (i1 i2 : einput),
-  cv_samestep cv = false -> cv_hide cv = true -> cv_subtract cv = false ->
+  cv_samestep cv = false -> e_apply i1 = true -> cv_hide cv = true -> cv_subtract cv = false ->
   {invok('i1')}
   (forall a, In a (cv_atoms cv) -> e_force i1 a = vzero Rops) ->
   {LAST.format(inc='true', hist='pre ++ [i1; i2]')} = e_fb i1""",
-  f"intros cell mass cv pre s i1 i2 H Hh Hsb Hi Hd Hs Hz. {okpf % 'i1'} exact (inverse_lagged_hidden cell mass cv pre s i1 i2 H Hh Hsb Hok Hz).",
+  f"intros cell mass cv pre s i1 i2 H Ha Hh Hsb Hi Hd Hs Hz. {okpf % 'i1'} exact (inverse_lagged_hidden cell mass cv pre s i1 i2 H Ha Hh Hsb Hok Hz).",
   "Jacobian term hidden on request: the bias force alone")
 T("inverse_lagged_T0", f"""forall (cell : option RV) (mass : nat -> R) (cv : colvar) (pre : list einput) (s : estate) (i1 i2 : einput),
-  cv_samestep cv = false -> cv_kT cv = 0 -> cv_subtract cv = false ->
+  cv_samestep cv = false -> e_apply i1 = true -> cv_kT cv = 0 -> cv_subtract cv = false ->
   {invok('i1')}
   (forall a, In a (cv_atoms cv) -> e_force i1 a = vzero Rops) ->
   {LAST.format(inc='true', hist='pre ++ [i1; i2]')} = e_fb i1""",
-  f"intros cell mass cv pre s i1 i2 H HT Hsb Hi Hd Hs Hz. {okpf % 'i1'} exact (inverse_lagged_T0 cell mass cv pre s i1 i2 H HT Hsb Hok Hz).",
+  f"intros cell mass cv pre s i1 i2 H Ha HT Hsb Hi Hd Hs Hz. {okpf % 'i1'} exact (inverse_lagged_T0 cell mass cv pre s i1 i2 H Ha HT Hsb Hok Hz).",
   "temperature zero: no Jacobian term")
+T("lagged_not_applied", f"""forall (cell : option RV) (mass : nat -> R) (cv : colvar) (inc : bool) (pre : list einput) (s : estate) (i1 i2 : einput),
+  cv_samestep cv = false -> e_apply i1 = false ->
+  {LAST.format(inc='inc', hist='pre ++ [i1; i2]')} =
+    cv_proj {M} (e_pos i1) cv (e_force i1) + (if cv_hide cv then 0 else cv_fj {M} (e_pos i1) cv)
+    - (if cv_subtract cv then e_fb i1 else 0)""", "exact lagged_not_applied.",
+  "a step at which NO bias applies a force to the variable (bias asleep, switched off, deleted, none defined): nothing of Colvars is in the\\n   engine's forces and no Jacobian-compensating force was applied, so the next report is the projection of the engine's forces,\\n   plus the Jacobian term unless hidden (f_old = fb, normally 0, is still subtracted with subtractAppliedForce)")
 T("inverse_same_step", f"""forall (cell : option RV) (mass : nat -> R) (cv : colvar) (inc : bool) (pre : list einput) (s : estate) (i : einput) (f : R),
   cv_samestep cv = true ->
   {invok('i')}
@@ -166,7 +184,7 @@ T("local_measured", f"""forall (cell : option RV) (mass : nat -> R) (pos : RF) (
 T("local_variable", f"""forall (cell : option RV) (mass : nat -> R) (pos : RF) (cv : colvar) (F G : RF),
   (forall a, In a (cv_atoms cv) -> F a = G a) -> cv_proj {M} pos cv F = cv_proj {M} pos cv G""", "exact cv_proj_local.")
 T("local_report_lagged", f"""forall (cell : option RV) (mass : nat -> R) (cv : colvar) (inc : bool) (pre pre' : list einput) (s s' : estate) (i1 i1' i2 i2' : einput),
-  cv_samestep cv = false -> e_pos i1 = e_pos i1' -> e_fb i1 = e_fb i1' ->
+  cv_samestep cv = false -> e_pos i1 = e_pos i1' -> e_fb i1 = e_fb i1' -> e_apply i1 = e_apply i1' ->
   (forall a, In a (cv_atoms cv) -> e_force i1 a = e_force i1' a) ->
   {LAST.format(inc='inc', hist='pre ++ [i1; i2]')} = last_ft (snd (eng_run Rops PI cell mass cv inc s' (pre' ++ [i1'; i2'])))""",
   "exact local_lagged.", "reports: two histories whose step t-1 differs only by engine forces on atoms outside the variable's groups\n   (and arbitrarily before t-1 and at t) report the same total force at t")
@@ -178,26 +196,26 @@ T("local_report_same_step", f"""forall (cell : option RV) (mass : nat -> R) (cv 
 
 # ---------------- subtract, timing
 T("subtract_applied", f"""forall (cell : option RV) (mass : nat -> R) (cv : colvar) (pre : list einput) (s : estate) (i1 i2 : einput),
-  cv_samestep cv = false -> cv_subtract cv = true ->
+  cv_samestep cv = false -> e_apply i1 = true -> cv_subtract cv = true ->
   {invok('i1')}
   {LAST.format(inc='true', hist='pre ++ [i1; i2]')} =
     cv_proj {M} (e_pos i1) cv (e_force i1) + (if cv_hide cv then 0 else cv_fj {M} (e_pos i1) cv)""",
-  f"intros cell mass cv pre s i1 i2 H Hsb Hi Hd Hs. {okpf % 'i1'} exact (subtract_applied cell mass cv pre s i1 i2 H Hsb Hok).",
+  f"intros cell mass cv pre s i1 i2 H Ha Hsb Hi Hd Hs. {okpf % 'i1'} exact (subtract_applied cell mass cv pre s i1 i2 H Ha Hsb Hok).",
   "subtractAppliedForce (lagged convention, the engine's total force includes Colvars' forces): the report is the projection of the\n   engine's own forces (+ Jacobian term unless hidden) whatever force Colvars applied")
 T("without_subtract", f"""forall (cell : option RV) (mass : nat -> R) (cv : colvar) (pre : list einput) (s : estate) (i1 i2 : einput),
-  cv_samestep cv = false -> cv_subtract cv = false ->
+  cv_samestep cv = false -> e_apply i1 = true -> cv_subtract cv = false ->
   {invok('i1')}
   {LAST.format(inc='true', hist='pre ++ [i1; i2]')} =
     cv_proj {M} (e_pos i1) cv (e_force i1) + {OWN}
-    + (if adds_fj cv then cv_fj {M} (e_pos i1) cv else 0)""",
-  f"intros cell mass cv pre s i1 i2 H Hsb Hi Hd Hs. {okpf % 'i1'} exact (without_subtract cell mass cv pre s i1 i2 H Hsb Hok).",
+    + (if adds_fj cv (cv_hide cv) then cv_fj {M} (e_pos i1) cv else 0)""",
+  f"intros cell mass cv pre s i1 i2 H Ha Hsb Hi Hd Hs. {okpf % 'i1'} exact (without_subtract cell mass cv pre s i1 i2 H Ha Hsb Hok).",
   "... and without the option it contains the applied force of step t-1")
 T("timing", f"""forall (cell : option RV) (mass : nat -> R) (cv : colvar) (inc : bool) (i1 i2 : einput),
   cv_samestep cv = false -> forall (pre : list einput) (s : estate),
   {LAST.format(inc='inc', hist='pre ++ [i1; i2]')} =
     cv_proj {M} (e_pos i1) cv
-      (if inc then fadd Rops (e_force i1) (cv_apply {M} (e_pos i1) cv ({OWN})) else e_force i1)
-    + (if adds_fj cv then cv_fj {M} (e_pos i1) cv else 0)
+      (if inc then fadd Rops (e_force i1) (if e_apply i1 then cv_apply {M} (e_pos i1) cv ({OWN}) else fzero Rops) else e_force i1)
+    + (if adds_fj cv (cv_hide cv && e_apply i1) then cv_fj {M} (e_pos i1) cv else 0)
     - (if cv_subtract cv then {OWN} else 0)""",
   "exact history_lag.", "lagged convention, every history pre, every state s, whatever happens at step t (i2): the report of step t is the projection of the\n   forces exerted at t-1 on the inverse gradients of t-1, with the Jacobian term and the applied force of t-1")
 T("timing_same_step", f"""forall (cell : option RV) (mass : nat -> R) (cv : colvar) (inc : bool) (i : einput),
